@@ -1,7 +1,10 @@
 #!/usr/bin/env python3
 """Evaluate one seeded change against the checks.
 
-usage: tools/mutate.py <seeded/ID dir> [--checks C01,C05 | --all] [--tier quick]
+usage: tools/mutate.py <seeded/ID dir> [--checks C01,C05 | --all] [--tier quick] [--repo <scratch worktree>]
+
+With --repo the patch is applied to that scratch worktree of /repo instead (several evaluations can then run in
+parallel, /repo is never touched) and the checks are pointed at it with VERIF_REPO.
 
 The directory holds patch.diff (applies to /repo with `git apply`), demo.py and meta.json.
 Steps: /repo must be clean -> apply -> the repository's pinned suite must stay green -> demo must
@@ -27,6 +30,7 @@ def main():
     args = sys.argv[2:]
     tier = 'quick'
     checks = None
+    repo = '/repo'
     for i, a in enumerate(args):
         if a == '--checks':
             checks = args[i + 1].split(',')
@@ -34,23 +38,29 @@ def main():
             checks = ALL
         if a == '--tier':
             tier = args[i + 1]
+        if a == '--repo':
+            repo = os.path.realpath(args[i + 1])
     meta = json.load(open(os.path.join(d, 'meta.json')))
     if checks is None:
         checks = meta.get('checks_expected') or [meta['property']]
     patch = os.path.join(d, 'patch.diff')
     demo = os.path.join(d, 'demo.py')
-    if sh('git -C /repo status --porcelain').stdout.strip():
-        print('refusing: /repo is not clean')
+    if sh('git -C %s status --porcelain --untracked-files=no' % repo).stdout.strip():
+        print('refusing: %s is not clean' % repo)
         return 2
-    res = {'at': time.strftime('%Y-%m-%dT%H:%M:%S'), 'tier': tier, 'repo_head': sh('git -C /repo rev-parse --short HEAD').stdout.strip(),
+    res = {'at': time.strftime('%Y-%m-%dT%H:%M:%S'), 'tier': tier, 'repo_head': sh('git -C %s rev-parse --short HEAD' % repo).stdout.strip(),
            'verif_head': sh('git -C %s rev-parse --short HEAD' % VERIF).stdout.strip()}
-    env = dict(os.environ, PYTHONPATH='/repo', PYTHONDONTWRITEBYTECODE='1', TQDM_DISABLE='1')
+    env = dict(os.environ, PYTHONPATH=repo, PYTHONDONTWRITEBYTECODE='1', TQDM_DISABLE='1')
+    cenv = dict(os.environ)
+    if repo != '/repo':
+        cenv['VERIF_REPO'] = repo
+        res['repo'] = repo
     try:
-        r = sh(['git', '-C', '/repo', 'apply', patch])
+        r = sh(['git', '-C', repo, 'apply', patch])
         if r.returncode != 0:
             print('patch does not apply:', r.stderr[-300:])
             return 2
-        s = sh(['python3', os.path.join(VERIF, 'tools', 'run_suite.py')])
+        s = sh(['python3', os.path.join(VERIF, 'tools', 'run_suite.py'), repo])
         res['suite_green'] = s.returncode == 0
         res['suite'] = s.stdout.strip().split('\n')[0]
         dm = sh(['/venv/bin/python', demo], env=env, cwd='/tmp')
@@ -58,7 +68,7 @@ def main():
         res['checks'] = {}
         for c in checks:
             t0 = time.time()
-            cr = sh([os.path.join(VERIF, 'check'), c, tier], cwd=VERIF)
+            cr = sh([os.path.join(VERIF, 'check'), c, tier], cwd=VERIF, env=cenv)
             vl = [l for l in cr.stdout.split('\n') if l.startswith('VIOLATION')]
             first = ''
             lines = cr.stdout.split('\n')
@@ -73,18 +83,18 @@ def main():
             # replay of the first violation must fail on the changed tree
             if vl:
                 rp = vl[0].split('replay=')[1].strip()
-                rr = sh([os.path.join(VERIF, 'check'), 'replay', rp], cwd=VERIF)
+                rr = sh([os.path.join(VERIF, 'check'), 'replay', rp], cwd=VERIF, env=cenv)
                 res['checks'][c]['replay_fails_with_patch'] = rr.returncode == 1
                 res['checks'][c]['replay_path'] = rp
     finally:
-        sh('git -C /repo checkout -- .')
+        sh('git -C %s checkout -- .' % repo)
     dm = sh(['/venv/bin/python', demo], env=env, cwd='/tmp')
     res['demo_passes_without_patch'] = dm.returncode == 0
     for c, info in res.get('checks', {}).items():
         if info.get('replay_path'):
-            rr = sh([os.path.join(VERIF, 'check'), 'replay', info['replay_path']], cwd=VERIF)
+            rr = sh([os.path.join(VERIF, 'check'), 'replay', info['replay_path']], cwd=VERIF, env=cenv)
             info['replay_passes_without_patch'] = rr.returncode == 0
-    res['clean_after'] = not sh('git -C /repo status --porcelain').stdout.strip()
+    res['clean_after'] = not sh('git -C %s status --porcelain --untracked-files=no' % repo).stdout.strip()
     out = os.path.join(d, 'result.json')
     hist = json.load(open(out)) if os.path.exists(out) else []
     hist.append(res)
